@@ -77,8 +77,8 @@ func (rc *CRespCodec) Decode(c CConn) (*Msg, error) {
 	resp.Id = msgId
 	resp.Owner = c
 	resp.Type = codec.Transform2Type(msg, n)
-	resp.Body = make(map[int32]*Frag, n)
-	resp.Fd2Slot = make(map[int]int32, n)
+	resp.Body = make(map[int32]*Frag, mapHint(n))
+	resp.Fd2Slot = make(map[int]int32, mapHint(n))
 
 	switch resp.Type {
 	case codec.ReqMget:
@@ -118,7 +118,7 @@ func (rc *CRespCodec) Decode(c CConn) (*Msg, error) {
 }
 
 func (rc *CRespCodec) Frag1(c CConn, n int, resp *Msg, buf *codec.Buffer) error {
-	resp.Frags = make(map[int32][]string, n)
+	resp.Frags = make(map[int32][]string, mapHint(n))
 	for i := 0; i < n; i++ {
 		msg, err := rc.parseLine(buf)
 		if err != nil {
@@ -140,7 +140,7 @@ func (rc *CRespCodec) Frag1(c CConn, n int, resp *Msg, buf *codec.Buffer) error 
 }
 
 func (rc *CRespCodec) Frag2(c CConn, n int, resp *Msg, buf *codec.Buffer) error {
-	resp.Frags2 = make(map[int32][][2]string, n/2)
+	resp.Frags2 = make(map[int32][][2]string, mapHint(n/2))
 	for i := 0; i < n; i = i + 2 {
 		msg, err := rc.parseLine(buf)
 		if err != nil {
@@ -312,6 +312,15 @@ func (rc *CRespCodec) parseLine(buf *codec.Buffer) ([]byte, error) {
 	default:
 		return nil, codec.ErrInvalidResp
 	}
+}
+
+// mapHint bounds an element count announced by the client before it is used as an allocation hint:
+// the count is not backed by received bytes yet.
+func mapHint(n int) int {
+	if n > 1024 {
+		return 1024
+	}
+	return n
 }
 
 func (rc *CRespCodec) sizeTooLarge(size int) bool {
